@@ -25,7 +25,10 @@ type C12Scenario struct {
 	Max       int                 `json:"max"`
 	Plain     bool                `json:"plain"`
 	Quiet     bool                `json:"quiet"`
-	Net       verifsimnet.Profile `json:"net"`
+	// NFiles > 1 (non-plain mode only): the same corpus under several names, given
+	// as a comma-separated list; each file's lines are attributed by source id
+	NFiles int                 `json:"nfiles,omitempty"`
+	Net    verifsimnet.Profile `json:"net"`
 }
 
 // The corpus: 40 lines designed so that different patterns select different
@@ -83,6 +86,9 @@ func c12Gen(r *Rand, tier string, i int) Scenario {
 	sc.Before, sc.After, sc.Max = val(), val(), val()
 	sc.Plain = r.Bool(0.5)
 	sc.Quiet = r.Bool(0.3)
+	if !sc.Plain && r.Bool(0.35) {
+		sc.NFiles = PickOf(r, 2, 2, 3)
+	}
 	if sc.Transport == "ssh" {
 		sc.Net = genNetProfile(r)
 		if r.Bool(0.2) {
@@ -123,13 +129,26 @@ func c12Run(t *testing.T, s Scenario, src verifsim.DecisionSource, keep bool) *R
 	var proc *ClientProc
 	var stdout []byte
 	opts := RunOpts{Src: src, KeepLabels: keep, MaxFake: 3 * time.Minute}
+	if sc.NFiles > 1 {
+		// several file arguments = several commands; every command is held back
+		// for 2 s so that all have arrived before the first finishes. Otherwise
+		// the open finding F-C02-premature-shutdown (a C02 matter: the session is
+		// closed when the commands received so far are done) would lose the
+		// later files here too
+		opts.Stalls = stallRules([]StallSpec{{Name: "command.hold", Site: siteCommandStart, Suffix: "/go", From: 0, To: -1, DurMs: 2000}})
+	}
 	if sc.Transport == "ssh" {
 		np := sc.Net
 		opts.Net = &np
 	}
 	res.Outcome = RunSim(t, opts, func(w *World) {
 		w.WriteFile("corpus.log", []byte(strings.Join(c12Corpus, "\n")+"\n"))
-		spec := ReadSpec{Kind: "grep", Transport: sc.Transport, Plain: sc.Plain, Quiet: sc.Quiet, NoColor: true, Files: []string{"corpus.log"},
+		files := []string{"corpus.log"}
+		for k := 1; k < sc.NFiles; k++ {
+			files = append(files, fmt.Sprintf("corpus%d.log", k))
+			w.WriteFile(files[k], []byte(strings.Join(c12Corpus, "\n")+"\n"))
+		}
+		spec := ReadSpec{Kind: "grep", Transport: sc.Transport, Plain: sc.Plain, Quiet: sc.Quiet, NoColor: true, Files: files,
 			Regex: sc.Regex, Invert: sc.Invert, Before: sc.Before, After: sc.After, Max: sc.Max}
 		keyPath := ""
 		if sc.Transport == "ssh" {
@@ -166,7 +185,11 @@ func c12Run(t *testing.T, s Scenario, src verifsim.DecisionSource, keep bool) *R
 		return res
 	}
 	want := refGrep(sel, nonNeg(sc.Before), nonNeg(sc.After), nonNeg(sc.Max))
-	var got []string
+	nfiles := sc.NFiles
+	if nfiles < 1 {
+		nfiles = 1
+	}
+	gotBy := make([][]string, nfiles)
 	for _, ln := range strings.Split(strings.TrimSuffix(string(stdout), "\n"), "\n") {
 		if ln == "" && len(stdout) == 0 {
 			continue
@@ -190,18 +213,38 @@ func c12Run(t *testing.T, s Scenario, src verifsim.DecisionSource, keep bool) *R
 				return res
 			}
 			ln = parts[5]
+			if nfiles > 1 {
+				fi := -1
+				for k := 0; k < nfiles; k++ {
+					name := "corpus.log"
+					if k > 0 {
+						name = fmt.Sprintf("corpus%d.log", k)
+					}
+					if parts[4] == name {
+						fi = k
+					}
+				}
+				if fi < 0 {
+					res.Class, res.Message = "mode-differs", fmt.Sprintf("record with unknown source id %q", parts[4])
+					return res
+				}
+				gotBy[fi] = append(gotBy[fi], ln)
+				continue
+			}
 		}
-		got = append(got, ln)
+		gotBy[0] = append(gotBy[0], ln)
 	}
 	var exp []string
 	for _, i := range want {
 		exp = append(exp, c12Corpus[i])
 	}
-	if strings.Join(got, "\n") != strings.Join(exp, "\n") {
-		res.Class = "selection-differs"
-		res.Message = fmt.Sprintf("pattern %q invert=%v before=%d after=%d max=%d: user's request selects corpus lines %v, session delivered %d lines: %q",
-			trunc(sc.Regex, 80), sc.Invert, sc.Before, sc.After, sc.Max, oneBased(want), len(got), trunc(strings.Join(got, "\\n"), 200))
-		return res
+	for fi, got := range gotBy {
+		if strings.Join(got, "\n") != strings.Join(exp, "\n") {
+			res.Class = "selection-differs"
+			res.Message = fmt.Sprintf("pattern %q invert=%v before=%d after=%d max=%d: user's request selects corpus lines %v, session delivered %d lines for file %d of %d: %q",
+				trunc(sc.Regex, 80), sc.Invert, sc.Before, sc.After, sc.Max, oneBased(want), len(got), fi+1, nfiles, trunc(strings.Join(got, "\\n"), 200))
+			return res
+		}
 	}
 	if proc.Status != 0 {
 		res.Class, res.Message = "exit-status", fmt.Sprintf("exit status %d", proc.Status)
@@ -211,7 +254,7 @@ func c12Run(t *testing.T, s Scenario, src verifsim.DecisionSource, keep bool) *R
 
 func c12Shape(s Scenario) string {
 	sc := s.(*C12Scenario)
-	return fmt.Sprintf("%s/%q/i%v/b%d/a%d/m%d/p%v/q%v/chunk%d", sc.Transport, trunc(sc.Regex, 40), sc.Invert, sc.Before, sc.After, sc.Max, sc.Plain, sc.Quiet, sc.Net.ChunkMax)
+	return fmt.Sprintf("%s/f%d/%q/i%v/b%d/a%d/m%d/p%v/q%v/chunk%d", sc.Transport, sc.NFiles, trunc(sc.Regex, 40), sc.Invert, sc.Before, sc.After, sc.Max, sc.Plain, sc.Quiet, sc.Net.ChunkMax)
 }
 
 func c12Sample(s Scenario) any {
